@@ -28,7 +28,12 @@ def gen_case(rng):
   ops = list(regs)
   focus = G.rand_scope(rng)
   scopes = [focus[:i] for i in range(len(focus) + 1)]
-  scopes += [focus[:i] + [rng.choice(G.ALPHA)] for i in range(len(focus) + 1)]  # siblings / extensions
+  scopes += [focus[:i] + [rng.choice(G.SCOPE_ALPHA)] for i in range(len(focus) + 1)]  # siblings / extensions
+  # look-alikes: the next component cut short or extended by a character ('a' vs 'ab', 'a/a' vs 'a/ab')
+  for i in range(len(focus)):
+    scopes.append(focus[:i] + [focus[i] + 'b'])
+    if len(focus[i]) > 1:
+      scopes.append(focus[:i] + [focus[i][:1]])
   body = []
   for _ in range(rng.randint(0, 8)):
     b = G.gen_bind(rng, rng.choice(regs), rng.choice(scopes))
